@@ -45,7 +45,8 @@ static int sexp_basic_comparator (sexp op) {
     return 1;
   if (! sexp_opcodep(op))
     return 0;
-  if (sexp_opcode_class(op) == SEXP_OPC_ARITHMETIC_CMP)
+  if (sexp_opcode_class(op) == SEXP_OPC_ARITHMETIC_CMP
+      && !sexp_opcode_inverse(op))
     return 1;
   return 0;
 }
@@ -319,8 +320,6 @@ sexp sexp_sort_x (sexp ctx, sexp self, sexp_sint_t n, sexp seq,
     if (sexp_not(key) && sexp_basic_comparator(less)) {
       sexp_merge_sort(ctx, sexp_vector_data(vec), sexp_vector_data(scratch),
                       0, len-1);
-      if (sexp_opcodep(less) && sexp_opcode_inverse(less))
-        sexp_vector_nreverse(ctx, vec);
       res = vec;
     } else if (! (sexp_procedurep(less) || sexp_opcodep(less))) {
       res = sexp_type_exception(ctx, self, SEXP_PROCEDURE, less);
@@ -331,7 +330,7 @@ sexp sexp_sort_x (sexp ctx, sexp self, sexp_sint_t n, sexp seq,
                                  sexp_vector_data(scratch),
                                  0, len-1, less, key);
       if (!sexp_exceptionp(res))
-        res = scratch;
+        res = vec;
     }
   }
 
